@@ -70,3 +70,43 @@ package mux
 //@   ensures [outermost-served] len(r.middlewares) == 2 && callCount(opaque) == 2 ==> callArg(opaque, 1, 0) == callRes(opaque, 0, 0) && (callRes(opaque, 1, 0) != nil ==> callCount(ServeCOAP) == 1 && callArg(ServeCOAP, 0, 0) == callRes(opaque, 1, 0))
 //@   loop 0:
 //@     unroll 3
+
+// ---- C17: registering and removing routes ---------------------------------------------------------------
+//
+// Every access to the route table and to the default handler happens while the router lock is held
+// (`guarded` above: checked for every read and write in the functions under contract), and each of these
+// operations is ONE atomic step on the table: Handle stores the new route under the filtered pattern and
+// touches no other entry (a refused registration touches nothing), HandleRemove removes exactly that entry
+// (or reports that it is not there and touches nothing), DefaultHandle only replaces the default handler,
+// GetRoute returns a copy of the entry registered under the pattern at that instant, or nothing.
+// (What a compiled pattern matches is package regexp's business: newRouteRegexp is assumed.)
+//
+//@ func newRouteRegexp(path string) (rr *routeRegexp, err error)
+//@   trusted
+//@   ensures err == nil ==> rr != nil
+//
+//@ func (*Router) Handle(pattern string, handler Handler) (err error)
+//@   requires r != nil && r.m != nil && r.z != nil
+//@   cs-pure mapUnchanged(r.z)
+//@   atomic [refused-touches-nothing] err != nil ==> mapUnchanged(r.z)
+//@   atomic [nil-handler-refused] handler == nil ==> err != nil
+//@   atomic [stores-under-filtered-pattern] err == nil ==> present(r.z, keyId(ite(len(pattern) == 0, "/", pattern))) && r.z[keyId(ite(len(pattern) == 0, "/", pattern))].h == handler && r.z[keyId(ite(len(pattern) == 0, "/", pattern))].pattern == ite(len(pattern) == 0, "/", pattern) && r.z[keyId(ite(len(pattern) == 0, "/", pattern))].regexMatcher == callRes(newRouteRegexp, 0, 0)
+//@   atomic [touches-only-that-entry] mapUnchanged(r.z) || mapIsStore(r.z, keyId(ite(len(pattern) == 0, "/", pattern)), r.z[keyId(ite(len(pattern) == 0, "/", pattern))])
+//
+//@ func (*Router) HandleRemove(pattern string) (err error)
+//@   requires r != nil && r.m != nil
+//@   cs-pure mapUnchanged(r.z)
+//@   atomic [removes-exactly-that-entry] err == nil ==> old(present(r.z, keyId(ite(len(pattern) == 0, "/", pattern)))) && mapIsDelete(r.z, keyId(ite(len(pattern) == 0, "/", pattern)))
+//@   atomic [absent-reported] err != nil ==> !old(present(r.z, keyId(ite(len(pattern) == 0, "/", pattern)))) && mapUnchanged(r.z)
+//
+//@ func (*Router) DefaultHandle(handler Handler)
+//@   requires r != nil && r.m != nil
+//@   cs-pure mapUnchanged(r.z)
+//@   atomic [sets-default] r.defaultHandler == handler && mapUnchanged(r.z)
+//
+//@ func (*Router) GetRoute(pattern string) (rt *Route)
+//@   requires r != nil && r.m != nil
+//@   cs-pure mapUnchanged(r.z)
+//@   atomic [read-only] mapUnchanged(r.z)
+//@   atomic [found-iff-registered] (rt != nil) <==> present(r.z, keyId(ite(len(pattern) == 0, "/", pattern)))
+//@   atomic [copy-of-the-entry] rt != nil ==> rt.h == r.z[keyId(ite(len(pattern) == 0, "/", pattern))].h && rt.regexMatcher == r.z[keyId(ite(len(pattern) == 0, "/", pattern))].regexMatcher && fresh(rt)
